@@ -1,9 +1,90 @@
+import PbBss.Model.Metrics
 import Driver.Util
-/-! line-protocol operations of the `Metrics` models (stub: filled in by the owner of these models) -/
+/-! line-protocol operations of the `Metrics` models (`si_sdr`, `get_snr`, `set_snr`, `input_sxr`, `output_sxr`,
+`return_dict` logic).  Groups of the reply are separated by `|`. -/
+open PbBss PbBss.Metrics
 namespace Driver
+
+def vec (a : Array String) (off T : Nat) : Fin T → Float :=
+  let v : Vector Float T := Vector.ofFn fun t => fl a off t.val
+  fun t => v[t]
+
+/-- powers `S[i, j] = mean(x[i, j, :] ** 2)` as a table -/
+def powerTab (a : Array String) (off n m T : Nat) : Fin n → Fin m → Float :=
+  let v : Vector (Vector Float m) n := Vector.ofFn fun i => Vector.ofFn fun j =>
+    meanPower (vec a (off + (i.val * m + j.val) * T) T)
+  fun i j => (v[i])[j]
+
+def powerVec (a : Array String) (off n T : Nat) : Fin n → Float :=
+  let v : Vector Float n := Vector.ofFn fun i => meanPower (vec a (off + i.val * T) T)
+  fun i => v[i]
+
+def fmtTriples (xs : List (Float × Float × Float)) : String :=
+  fmtFloats (xs.map (·.1)) ++ " | " ++ fmtFloats (xs.map (·.2.1)) ++ " | " ++ fmtFloats (xs.map (·.2.2))
+
+def fmtKey (s : String) : String := ",".intercalate (s.toList.map fun c => toString c.toNat)
+
+def retArgOf (a : Array String) : RetArg :=
+  -- retdict <fn> <kind> <flag> n <char codes>
+  match a[2]! with
+  | "bool" => .bool (tokNat a 3 != 0)
+  | "str" => .str (String.ofList ((List.range (tokNat a 4)).map fun i => Char.ofNat (tokNat a (5 + i))))
+  | _ => .other (tokNat a 3 != 0)
+
+def fmtRet : RetShape → String
+  | .tuple => "tuple"
+  | .typeError => "typeerror"
+  | .dict keys => "dict " ++ " ".intercalate (keys.map fmtKey)
 
 def opsMetrics (a : Array String) : Option String :=
   match a[0]! with
+  | "sisdr" =>
+    -- sisdr B T <reference B*T> <estimation B*T>
+    let B := tokNat a 1; let T := tokNat a 2
+    some (fmtFloats ((List.range B).map fun b => siSdr (vec a (3 + b*T) T) (vec a (3 + B*T + b*T) T)))
+  | "getsnr" =>
+    -- getsnr T <X> <N>
+    let T := tokNat a 1
+    some (fmtFloats [getSnr (vec a 2 T) (vec a (2 + T) T)])
+  | "getsnrc" =>
+    -- getsnrc T <X re> <X im> <N re> <N im>
+    let T := tokNat a 1
+    some (fmtFloats [snrOfPowers (meanPowerC (vec a 2 T) (vec a (2 + T) T))
+      (meanPowerC (vec a (2 + 2*T) T) (vec a (2 + 3*T) T))])
+  | "setsnr" =>
+    -- setsnr T <snr> <X> <N>
+    let T := tokNat a 1
+    let n' := setSnr (vec a 3 T) (vec a (3 + T) T) (tokFloat a 2)
+    some (fmtFloats ((List.finRange T).map n'))
+  | "factor" =>
+    -- factor <snr> <current>
+    some (fmtFloats [snrFactor (tokFloat a 1) (tokFloat a 2)])
+  | "insxr" =>
+    -- insxr K D T avs avc <images K*D*T> <noise D*T>
+    let K := tokNat a 1; let D := tokNat a 2; let T := tokNat a 3
+    let avs := tokNat a 4 != 0; let avc := tokNat a 5 != 0
+    let S := powerTab a 6 K D T
+    let N := powerVec a (6 + K*D*T) D T
+    some (match avs, avc with
+      | false, false => fmtTriples ((List.finRange K).flatMap fun k => (List.finRange D).map fun d => inputSxrFF S N k d)
+      | false, true => fmtTriples ((List.finRange K).map fun k => inputSxrFT S N k)
+      | true, false => fmtTriples ((List.finRange D).map fun d => inputSxrTF S N d)
+      | true, true => fmtTriples [inputSxrTT S N])
+  | "outsxr" =>
+    -- outsxr Ks Kt T avs <image_contribution Ks*Kt*T> <noise_contribution Kt*T>
+    let Ks := tokNat a 1; let Kt := tokNat a 2; let T := tokNat a 3
+    let avs := tokNat a 4 != 0
+    if hKt : 0 < Kt then
+      let S := powerTab a 5 Ks Kt T
+      let N := powerVec a (5 + Ks*Kt*T) Kt T
+      match selectOutputs Ks Kt (extend S) with
+      | none => some "raise"
+      | some p =>
+        let per := outputSxrPer S N (selFn hKt p)
+        some (fmtNats p ++ " | " ++ (if avs then fmtTriples [meanTriple per] else fmtTriples ((List.finRange Ks).map per)))
+    else some "raise"
+  | "retdict" =>
+    some (fmtRet (if a[1]! == "input_sxr" then inputRet (retArgOf a) else outputRet (retArgOf a)))
   | _ => none
 
 end Driver
